@@ -116,6 +116,28 @@ fn run(ctx: &mut Ctx) {
             c.sample(json!({"workload":"corpus_ir","program":name}));
         });
     }
+    // the generic library of C07 (valid by construction; instantiations at nested generic types): IR monitors,
+    // and a compiler crash on one of these programs is a violation here (a stage output was not produced)
+    let nlib = tier.pick(48u64, 1_600u64) / ctx.nshards as u64 + 1;
+    for i in 0..nlib {
+        let mut rng = Rng::keyed(seed, "c03-lib", ctx.shard as u64, i);
+        let (prog, _) = crate::props::c07::build(&mut rng, 12);
+        let src = print_program(&prog, PrintOpts::default());
+        let label = format!("generic-library/{}/{}", ctx.shard, i);
+        ctx.case(&label.clone(), |c| {
+            runner::note_input(&src);
+            if let Err(p) = runner::guard(|| capi::compile_single(&src).map(|_| ())) {
+                c.violation(
+                    format!("C03:compiler-crash-on-valid-program:{}", crate::diff::msg_class(&p.site)),
+                    format!("a well-typed generic program makes a later stage crash at {}: {}", p.site, util::truncate(&p.message, 160)),
+                    json!({"label": label, "source": src}),
+                );
+                return;
+            }
+            let _ = ir_monitor(c, &label, &src);
+            c.count("generic_library_programs", 1);
+        });
+    }
     // generated: IR monitor + injections
     let n = tier.pick(160u64, 12_000u64) / ctx.nshards as u64 + 1;
     let max_sites = tier.pick(6usize, 40usize);
